@@ -203,6 +203,19 @@ CHECKS = {
              "model; vocabulary and reference prefixes are scanned at every level.",
         design_ref="7 C18", technique="TLA+ dialect conversion + per-dialect semantics, TLC invariants, replay with per-draft validators",
         note="OpenAPI 3.0 has no executable oracle: validated through the mapping written in harness/props/c18.py:oas30_to_2020."),
+    "C19": dict(
+        category="model_checking",
+        text="spec/GraphQL.tla: (1) the type mapping Ty (GraphQL type expression with nullability), input-field / argument "
+             "nullability and defaults, the transitive interface closure; (2) GSer, execution of a query selecting every "
+             "field (no omission, enums by name, Undefined as null, runtime class decides); (3) the argument machine: "
+             "ArgR (the rule: deserialized as deserialize would, omitted -> Python default, explicit null -> None for "
+             "Optional) against ArgM (transcription of resolver_resolve with graphql-core's kwargs). TLC checks ArgLaw, "
+             "ArgSound, InterfacesLaw, NullabilityLaw; three deviations must break their law. Every emitted case is "
+             "replayed on a generated module under two aliaser / enum_aliaser settings: graphql.validate_schema, the type "
+             "map (kinds, field and argument types, defaults, interfaces, enum values), execution results, the value "
+             "each resolver receives for every (parameter declaration, omitted | null | literal).",
+        design_ref="7 C19", technique="TLA+ model of type mapping + argument machine, TLC exhaustive over the pools, replay with graphql-core",
+        note="One 12-class data model; subscriptions, relay, id_types, error_handler are not modelled. Known finding F-gql-enum-default."),
     "C20": dict(
         category="model_checking",
         text="spec/RecCheck.tla models is_recursive / RecursiveChecker.visit with one action per access to the shared "
